@@ -5,6 +5,7 @@ import (
 	"errors"
 	"fmt"
 	"io"
+	"os"
 	"testing"
 
 	"pgregory.net/rapid"
@@ -36,6 +37,16 @@ func checkC08(c caseC08) (sig, msg string) {
 		injected = fmt.Errorf("tls: %w", io.ErrUnexpectedEOF)
 	case "WEOF":
 		injected = fmt.Errorf("conn: %w", io.EOF)
+	case "TIMEOUT":
+		injected = &timeoutError{id: c.Cut}
+	case "DEADLINE":
+		injected = os.ErrDeadlineExceeded
+	case "CLOSEDPIPE":
+		injected = io.ErrClosedPipe
+	case "NOPROGRESS":
+		injected = io.ErrNoProgress
+	case "SHORTBUF":
+		injected = io.ErrShortBuffer
 	}
 	var fail error = io.EOF
 	if c.Failure != "EOF" {
@@ -92,6 +103,13 @@ func checkC08(c caseC08) (sig, msg string) {
 	}
 	return "", ""
 }
+
+// timeoutError is a net.Error-like transport failure: temporary, timed out.
+type timeoutError struct{ id int }
+
+func (e *timeoutError) Error() string   { return fmt.Sprintf("i/o timeout #%d", e.id) }
+func (e *timeoutError) Timeout() bool   { return true }
+func (e *timeoutError) Temporary() bool { return true }
 
 func c08Class(c caseC08) (bool, string) {
 	_, hdr, err := ref.FrameLen(c.Frame)
@@ -157,7 +175,7 @@ func TestC08(t *testing.T) {
 		}
 		for _, k := range cuts {
 			c := caseC08{Frame: frame, Cut: k}
-			c.Failure = rapid.SampledFrom([]string{"EOF", "EOF", "X", "X", "UEOF", "WUEOF", "WEOF"}).Draw(t, "failure")
+			c.Failure = rapid.SampledFrom([]string{"EOF", "EOF", "EOF", "X", "X", "X", "UEOF", "WUEOF", "WEOF", "TIMEOUT", "DEADLINE", "CLOSEDPIPE", "NOPROGRESS", "SHORTBUF"}).Draw(t, "failure")
 			c.NonSticky = c.Failure != "EOF" && rapid.IntRange(0, 2).Draw(t, "nonsticky") == 0
 			c.Together = k > 0 && rapid.Bool().Draw(t, "together")
 			c.Delivery = rapid.SampledFrom([]string{"contiguous", "bytewise", "chunks"}).Draw(t, "delivery")
